@@ -18,8 +18,8 @@ PROP = 'C18'
 MOD = 'checks.c18'
 RULE = (
     "Cases: (a) Hypothesis documents of every kind (roCreate + all 25 message kinds) with non-ASCII "
-    "and markup-significant content, with or without a UTF-8 XML declaration, read from {file, str, "
-    "bytes, fake S3 object}; (b) Hypothesis collections built through from_strings / from_files / "
+    "and markup-significant content, with or without a UTF-8 XML declaration (and, for the byte-oriented "
+    "sources, in a declared ISO-8859-1 or UTF-16 encoding), read from {file, str, bytes, fake S3 object}; (b) Hypothesis collections built through from_strings / from_files / "
     "from_s3 over the same contents; (c) Hypothesis bucket listings: 0-12 keys under several "
     "prefixes, with and without the suffix (also suffix in the middle of the key, custom suffix), "
     "page sizes 1..n+1, prefix '' / None / non-matching.  The fake S3 (vlib/fakes3.py) is injected "
@@ -32,7 +32,7 @@ RULE = (
     "result pages, or a key lacking the suffix.")
 ASSUMPTIONS = ['the fake S3 models the ListObjects contract the code relies on: server-side prefix filter, '
                'binary key order, pages of >= 1 key, no Contents entry only when nothing matches']
-MANDATORY = ['source:file', 'source:bytes', 'source:s3', 'xml-declaration', 'non-ascii', 'pages>=2',
+MANDATORY = ['source:file', 'source:bytes', 'source:s3', 'xml-declaration', 'non-ascii', 'encoding:latin1', 'encoding:utf16', 'pages>=2',
              'key-without-suffix', 'prefix:none', 'prefix:empty', 'listing:empty', 'reader:s3', 'reader:file',
              'constructors-agree']
 
@@ -48,13 +48,17 @@ def judge_doc(case):
     fails = []
     outs = {}
     path = os.path.join(_work(), 'd.mos.xml')
+    raw = text.encode('utf-8')
+    if case.get('enc'):
+        from checks.c08 import encoded
+        raw = encoded(text, case['enc'])      # declared ISO-8859-1 / UTF-16 bytes
     with open(path, 'wb') as f:
-        f.write(text.encode('utf-8'))
-    fake = fakes3.FakeS3({'b': {'k/d.mos.xml': text.encode('utf-8')}})
+        f.write(raw)
+    fake = fakes3.FakeS3({'b': {'k/d.mos.xml': raw}})
     with warnings.catch_warnings():
         warnings.simplefilter('ignore')
         for name, fn in (('str', lambda: MosFile.from_string(text)),
-                         ('bytes', lambda: MosFile.from_string(text.encode('utf-8'))),
+                         ('bytes', lambda: MosFile.from_string(raw)),
                          ('file', lambda: MosFile.from_file(path)),
                          ('s3', lambda: MosFile.from_s3('b', 'k/d.mos.xml'))):
             try:
@@ -190,7 +194,13 @@ def documents(draw):
         _k, text = draw(gen.message(state, ro['ro_id'], faults='some', rich=True))
     decl = draw(st.sampled_from(['', '', '<?xml version="1.0" encoding="UTF-8"?>\n',
                                  "<?xml version='1.0' encoding='utf-8'?>", '<?xml version="1.0"?>']))
-    return {'doc': decl + text, 'decl': bool(decl)}
+    enc = None
+    if not decl and draw(st.integers(0, 3)) == 0:
+        from checks.c08 import encodable
+        enc = draw(st.sampled_from(['latin1', 'utf16']))
+        if not encodable(text, enc):
+            enc = None
+    return {'doc': decl + text, 'decl': bool(decl), 'enc': enc}
 
 
 def shard(args):
@@ -204,7 +214,10 @@ def shard(args):
                 cl.append('xml-declaration')
             if na:
                 cl.append('non-ascii')
-            col.record({'doc': case['doc']}, na or case['decl'], cl, judge_doc(case), key=h64(case['doc']))
+            if case.get('enc'):
+                cl.append(f"encoding:{case['enc']}")
+            col.record({'doc': case['doc'], 'enc': case.get('enc')}, na or case['decl'] or bool(case.get('enc')),
+                       cl, judge_doc(case), key=h64(case['doc'], str(case.get('enc'))))
         drive.run_given(documents(), one, n, seed)
 
         def two(case):
